@@ -29,11 +29,24 @@ def classes(a, spec, res):
     return out
 
 
+def upgrade_profile():
+    from .. import strategies as S
+    w = {"priorities": 1.0, "prio_preempt": 1.0, "prio_reroute": 1.0, "cc_waiting": 1.0, "self_loops": 1.0, "schedule": 0.3, "sched_preempt": 0.3,
+         "batching": 0.4, "discipline": 0.4, "routing_objects": 0.2, "server_priority": 0.2, "capacity": 0.2, "reneging": 0.15}
+    return S.Profile(list(w), weights=w, required=("priorities", "prio_preempt", "prio_reroute", "cc_waiting", "self_loops"), numeric="grid", max_nodes=2,
+                     max_classes=3, plans=("max_time",), horizon=(8.0, 20.0), budget=600, load="heavy", max_c=2, stay=0.5, excluded=common.EXCL["C04"])
+
+
 def subchecks(tier):
     prof = common.full_profile("C04", horizon=(6.0, 18.0), plans=("max_time", "max_time", "max_time", "max_customers"), resumptions=(1, 2))
     prof.weights.update({"ps": 0.0, "inf": 0.1, "slotted": 0.05, "schedule": 0.45, "capacity": 0.5, "server_priority": 0.3})
     return [system_subcheck("lattice", prof, lambda spec: [Exclusivity(spec)], nontrivial, classes=classes,
                             n={"quick": 9600, "thorough": 50000}, rule="finite-server lattice; attachment monitor + utilisation audit"),
+            system_subcheck("upgrade_preempt", upgrade_profile(), lambda spec: [Exclusivity(spec)],
+                            lambda a, spec, res: a.get("ev_class_change", 0) >= 1 and a.get("rec_interrupted_service", 0) >= 1, classes=classes,
+                            n={"quick": 3600, "thorough": 20000},
+                            rule="class change while waiting that raises the priority and pre-empts with 'reroute' (often back to the same node), "
+                                 "several customers waiting, schedules; same monitor"),
             system_subcheck("sched_blocked", common.region_profile("C04"), lambda spec: [Exclusivity(spec)],
                             lambda a, spec, res: a.get("rec_interrupted_service", 0) >= 1 and a.get("blocked_records", 0) >= 1, classes=classes,
                             n={"quick": 4800, "thorough": 30000}, rule="pre-emptive schedules x blocking region (heavy load, grid times); same monitor")]
